@@ -81,6 +81,8 @@ def quick_corpus():
     f_ = GaussFamily(e_)
     ps = f_.psi_axis + 1.2 * (f_.psi_bdry - f_.psi_axis)
     c.append(tok("lsn", s=-1, fs=1, tag="lsn-extrapolate", eq_extra={"pn_max": 1.0}, extrapolate_profiles=True, psi_sol=ps, psi_sol_inner=ps))
+    # the whole machine moved up so that max(Z) > max(R): catches R/Z mix-ups that a domain with |Z|<R hides
+    c.append(tok("lsn", s=-1, fs=-1, tag="lsn-zoff", eq_extra={"zoff": 1.9}, wall={"kind": "slant", "zoff": 1.9}, guards=2))
     c.append(circ())
     c.append(dict(circ(y_boundary_guards=2, ny=12), tag="circ-guards2"))
     return c
@@ -110,7 +112,9 @@ def thorough_extra(seed):
             extra["xpoint_poloidal_spacing_length"] = round(rnd.uniform(0.03, 0.12), 4)
             extra["target_all_poloidal_spacing_length"] = round(rnd.uniform(0.15, 0.6), 3)
             guards = rnd.randint(0, 3)
-            c.append(tok(topo, s=s, fs=fs, orth=orth, interp=interp, wall=wall, shift=shift, guards=guards, tag="rnd-%s-%d-%d" % (topo, seed, k), **extra))
+            zo = rnd.choice([0.0, 0.0, 1.7, -2.3])
+            wall["zoff"] = zo
+            c.append(tok(topo, s=s, fs=fs, orth=orth, interp=interp, wall=wall, shift=shift, guards=guards, tag="rnd-%s-%d-%d" % (topo, seed, k), eq_extra={"zoff": zo}, **extra))
     c.append(torpex("torpex-coils"))
     return c
 
